@@ -510,6 +510,7 @@ class Net(object):
         self.udp_inflight = deque()
         self.sent_dgrams = []
         self.dest_faults = {}     # dest -> errno while failing
+        self.dest_faults_once = {}  # dest -> errno for the next send to it only
         self.hosts = {}           # name -> ip for getaddrinfo
 
     # bookkeeping
@@ -533,6 +534,8 @@ class Net(object):
         return port not in self.down
 
     def dest_fault(self, sock, dest):
+        if dest in self.dest_faults_once:       # reported once (an ICMP bounce): the next send to that destination goes through
+            return self.dest_faults_once.pop(dest)
         return self.dest_faults.get(dest)
 
     def ephemeral(self, sock):
@@ -610,6 +613,7 @@ class Net(object):
         self.faults.enabled = False
         self.down.clear()
         self.dest_faults.clear()
+        self.dest_faults_once.clear()
         for s in self.pending:
             if getattr(s, "blackholed", False):
                 s.blackholed = False
